@@ -21,6 +21,9 @@ PROP = {'streams': [('c17', 1000, 100000)],
               'slice_is_substore',
               'slicer_needs_agreeing_annotations',
               'slice_monotone_entities_needs_flags',
+              'slice_monotone_store',
+              'slice_monotone_store_pure',
+              'manifest_union_grows',
               'manifest_sound_sliced',
               'response_sliced_static',
               'decision_sliced_static',
@@ -53,6 +56,9 @@ PROP = {'streams': [('c17', 1000, 100000)],
                  'holds the whole value): its hypotheses instead of NoRecOps / CtxWF are SortedReq req and SortedStore es (context and attribute records key-sorted, '
                  'recursively through records: Rust Value records are BTreeMaps; the model Value is an association list and Value.beq on records is positional); '
                  'that the slice is key-sorted is proved (sortedStore_slice); CtxWF does not follow from ConformsRequest alone (ctxWF_not_from_conformance)',
+                 'slice_monotone_store needs NO well-formedness or conformance hypothesis, only rootsLe + FlagsAgreeRoots (weaker than equal flags: the larger trie may be '
+                 'annotated entity-typed only where the smaller one is; ancestors tries need no flag condition); manifest_union_grows assumes rootsLe t0 t0 for the un-annotated trie '
+                 'of ps (holds for tries with unique root and ancestors-trie keys - Rust hash maps; checkable with rootsLeB; NOT derived from manifestOfExpr here, RootsWF covers children keys only)',
                  'the typed AST of each policy per request environment, the resolved schema and to_typed input are taken from Rust '
                  '(Typechecker::typecheck_by_request_env, ValidatorSchema); to_typed is mirrored, diffed and part of the end-to-end proof (response_sliced_static)',
                  'the analysis rejects policies with tags (UnsupportedCedarFeature): outside the property by construction, counted '
@@ -74,7 +80,7 @@ TEXT = ('Lean model (Cedar/Manifest.lean) mirroring entity_manifest.rs + analysi
  'to_typed and the analysis into response_sliced_static: for static policies in the fragment the response over sliceStore(manifest) equals the '
  'response over the full store, for data conforming to the schema as far as the tries look (ConfRoots); full_statement_of_fragment reduces the '
  'full statement (exclusions: typed-False environments, templates, tags, unknowns, slicer failure exits) to fragment coverage + the C03/C11 links. '
- 'manifest_sound_valid discharges both links for the C03 typechecker model and the C11 conformance notions (static policies of the fragment accepted by checkEnv strict and not typed False, conformant request/store: authorization of the original policies over sliceStore(manifest of the typed ASTs) equals authorization over the full store; the typed AST includes the short-circuit transformations of the typechecker). Extension function calls are covered by manifest_sound_valid (Sim.call1 / call2). manifest_sound_valid_lit extends this to RECORD AND SET LITERALS (dereferenced, as operands, nested) and to == / contains / containsAll / containsAny ON RECORDS (no NoRecOps side condition): where the analysis requests the full type the slice holds the whole value (full_eq), for key-sorted contexts and stores (SortedReq, SortedStore: BTreeMap invariant; the sortedness of the slice is proved). NOT proved: the keeps-more-entities half of slice_monotone. The statement on the implementation (authorization over slice_entities == over the full store) is searched on generated '
+ 'manifest_sound_valid discharges both links for the C03 typechecker model and the C11 conformance notions (static policies of the fragment accepted by checkEnv strict and not typed False, conformant request/store: authorization of the original policies over sliceStore(manifest of the typed ASTs) equals authorization over the full store; the typed AST includes the short-circuit transformations of the typechecker). Extension function calls are covered by manifest_sound_valid (Sim.call1 / call2). manifest_sound_valid_lit extends this to RECORD AND SET LITERALS (dereferenced, as operands, nested) and to == / contains / containsAll / containsAny ON RECORDS (no NoRecOps side condition): where the analysis requests the full type the slice holds the whole value (full_eq), for key-sorted contexts and stores (SortedReq, SortedStore: BTreeMap invariant; the sortedness of the slice is proved). STORE-LEVEL MONOTONICITY is proved (slice_monotone_store): rootsLe t t2 + agreeing is_entity_type annotations (FlagsAgreeRoots: at corresponding nodes t2 is entity-typed only where t is) => the store sliced by t is a sub-store of the store sliced by t2 (entities, attributes, ancestors); the annotation condition cannot be dropped (slice_monotone_entities_needs_flags); manifest_union_grows: the manifest entry of ps ++ [p] is >= the entry of ps with agreeing annotations, so adding a policy only grows the slice (hypothesis: the un-annotated trie of ps is self-comparable, i.e. unique root / ancestors-trie keys, not derived from the analysis). The statement on the implementation (authorization over slice_entities == over the full store) is searched on generated '
  'schema worlds with manifest-stressing policy families; two classes of genuine failures are recorded as known findings (typed-False environments; '
  'template slots).',
  'proof over a hand-written model for a stated fragment (analysis + to_typed + slicer + authorizer composed); the remaining constructs '
